@@ -133,6 +133,33 @@ func jailedSets() [][3]bool {
 	return out
 }
 
+// maxSizeLowered lists, for every given shape with n >= 2 members, the variants with tss MaxGroupSize lowered to 1..n-1.
+func maxSizeLowered(gs []GroupCfg) []GroupCfg {
+	var out []GroupCfg
+	for _, g := range gs {
+		for c := 1; c < g.N; c++ {
+			x := g
+			x.MaxSize = uint64(c)
+			out = append(out, x)
+		}
+	}
+	return out
+}
+
+// withIncoming lists every given shape (n >= 1) with a disjoint and with an overlapping incoming group waiting for execution.
+func withIncoming(gs []GroupCfg) []GroupCfg {
+	var out []GroupCfg
+	for _, kind := range []string{"disjoint", "overlap"} {
+		for _, g := range gs {
+			if g.N > 0 {
+				g.Incoming = kind
+				out = append(out, g)
+			}
+		}
+	}
+	return out
+}
+
 func refilled(gs []GroupCfg) []GroupCfg {
 	var out []GroupCfg
 	for _, g := range gs {
@@ -163,6 +190,10 @@ func spaces(quick bool) []space {
 				Powers: [][3]int64{{1, 2, 10}}, Prop: []int{0, 2}, OAct: allFlags3(), Groups: groupConfigs(0, 1, 2), GroupN: "no group; 1,2 members x all flags"},
 			{Name: "tss-refilled-queues", Pools: []string{"3", "1000001"}, Pools2: []string{"", "5"}, OPct: []uint64{0, 33}, TPct: []uint64{1, 33, 100}, Tax: []string{"0.02"}, Mint: []bool{false},
 				Powers: [][3]int64{{1, 2, 10}}, Prop: []int{0}, OAct: [][3]bool{on3}, Groups: refilled(groupConfigs(1, 2, 3)), GroupN: "1,2,3 members x all (active,nonce) flags, queues refilled after a signing consumed the first nonces"},
+			{Name: "tss-max-group-size-lowered", Pools: []string{"1000001"}, Pools2: []string{"", "5"}, OPct: []uint64{0}, TPct: []uint64{33, 100}, Tax: []string{"0.02"}, Mint: []bool{false},
+				Powers: [][3]int64{{1, 2, 10}}, Prop: []int{0}, OAct: [][3]bool{on3}, Groups: maxSizeLowered(groupConfigs(2, 3)), GroupN: "2,3 members x all (active,nonce) flags x tss MaxGroupSize lowered to 1..n-1 after the group exists"},
+			{Name: "tss-incoming-group-waiting", Pools: []string{"1000001"}, Pools2: []string{"", "5"}, OPct: []uint64{0}, TPct: []uint64{33, 100}, Tax: []string{"0.02"}, Mint: []bool{false},
+				Powers: [][3]int64{{1, 2, 10}}, Prop: []int{0}, OAct: [][3]bool{on3}, Groups: withIncoming(groupConfigs(1, 2)), GroupN: "1,2 members x all flags x forced hand-over to a disjoint / overlapping second group waiting for execution"},
 			{Name: "oracle-jailed-voters", Jailed: jailedSets(), Pools: []string{"3", "1000001"}, Pools2: []string{""}, OPct: []uint64{33, 100}, TPct: []uint64{50}, Tax: []string{"0.02"}, Mint: []bool{false},
 				Powers: powerVectors([]int64{1, 3, 10}), Prop: []int{0, 1, 2}, OAct: allFlags3(), Groups: []GroupCfg{bothOn}, GroupN: one},
 			{Name: "oracle", Pools: poolsQ, Pools2: []string{""}, OPct: pct6, TPct: []uint64{50}, Tax: tax4, Mint: []bool{false},
@@ -181,6 +212,10 @@ func spaces(quick bool) []space {
 			Powers: [][3]int64{{1, 1, 1}, {1, 2, 10}}, Prop: []int{0, 1, 2}, OAct: allFlags3(), Groups: groupConfigs(0, 1, 2, 3), GroupN: "no group; 1,2,3 members x all flags"},
 		{Name: "tss-refilled-queues", Pools: []string{"3", "99", "1000001"}, Pools2: []string{"", "5"}, OPct: []uint64{0, 33, 100}, TPct: pct6, Tax: []string{"0", "0.02"}, Mint: []bool{false, true},
 			Powers: [][3]int64{{1, 2, 10}}, Prop: []int{0}, OAct: [][3]bool{on3}, Groups: refilled(groupConfigs(1, 2, 3)), GroupN: "1,2,3 members x all (active,nonce) flags, queues refilled after a signing consumed the first nonces"},
+		{Name: "tss-max-group-size-lowered", Pools: []string{"3", "99", "1000001"}, Pools2: []string{"", "5"}, OPct: []uint64{0, 33}, TPct: pct6, Tax: []string{"0", "0.02"}, Mint: []bool{false, true},
+			Powers: [][3]int64{{1, 2, 10}}, Prop: []int{0}, OAct: [][3]bool{on3}, Groups: maxSizeLowered(groupConfigs(2, 3)), GroupN: "2,3 members x all (active,nonce) flags x tss MaxGroupSize lowered to 1..n-1 after the group exists"},
+		{Name: "tss-incoming-group-waiting", Pools: []string{"3", "99", "1000001"}, Pools2: []string{"", "5"}, OPct: []uint64{0, 33}, TPct: pct6, Tax: []string{"0", "0.02"}, Mint: []bool{false, true},
+			Powers: [][3]int64{{1, 2, 10}}, Prop: []int{0}, OAct: [][3]bool{on3}, Groups: withIncoming(groupConfigs(1, 2, 3)), GroupN: "1,2,3 members x all flags x forced hand-over to a disjoint / overlapping second group waiting for execution"},
 		{Name: "oracle-jailed-voters", Jailed: jailedSets(), Pools: []string{"3", "99", "1000001", "1000000000000000007"}, Pools2: []string{"", "5"}, OPct: []uint64{1, 33, 100}, TPct: []uint64{50}, Tax: []string{"0", "0.02", "0.5"}, Mint: []bool{false, true},
 			Powers: powerVectors([]int64{1, 3, 10}), Prop: []int{0, 1, 2}, OAct: allFlags3(), Groups: []GroupCfg{bothOn}, GroupN: one},
 		{Name: "tss", Pools: poolsX, Pools2: []string{"", "1", "5", "1000003"}, OPct: []uint64{0, 1, 33, 99, 100}, TPct: pct6, Tax: tax5, Mint: []bool{false, true},
@@ -215,6 +250,8 @@ func run(r *engine.Run) {
 		"tss{6 pools x optional second denom; no group and every (active,has-nonce) assignment for 1,2,3 members (85 shapes); tss pct 0,1,33,50,99,100; oracle pct 0,33; 4 taxes} + " +
 		"cross{2 pools x optional second denom x oracle pct 0,33,100 x tss pct 0,33,100 x mint off/on x all oracle-active sets x all shapes with <=2 members} + " +
 		"oracle-jailed-voters{every non-empty subset of the voting validators jailed in x/staking just before the block (no validator-set update yet) x powers {1,3,10}^3 x all oracle-active sets x 3 proposers} + " +
+		"tss-max-group-size-lowered{2,3 members x all flags x tss MaxGroupSize lowered by MsgUpdateParams to 1..n-1 after the group exists} + " +
+		"tss-incoming-group-waiting{1,2 members x all flags x forced hand-over to a disjoint / overlapping second group waiting for execution} + " +
 		"discarded-executions and tss-refilled-queues (see coverage.configs). " +
 		"thorough: the same four products over larger alphabets (13 pool amounts up to 3*10^18, second denom 1,5,10^6+3, tax also 0.333333333333333333, powers {0,1,2,3,10}^3 and {1,333333333,10^12}^3, 3 proposers everywhere)"
 	r.Rule = "one evaluation = one tuple executed on the real whole-app BeginBlocker and on its module-by-module twin; tuples are enumerated by an odometer over each product, every index is executed; " +
@@ -230,6 +267,7 @@ func run(r *engine.Run) {
 	r.Required = []string{
 		"oracle:allocated", "oracle:none-active", "oracle:share-is-zero", "oracle:rounding-remainder-to-proposer", "oracle:inactive-validator-gets-0",
 		"oracle:inactive-proposer-gets-only-dust", "oracle:jailed-active-voter-paid",
+		"tss:incoming-group-member-gets-0", "tss:member-above-lowered-max-group-size-paid",
 		"tss:members-paid", "tss:no-current-group", "tss:no-valid-member", "tss:excluded-member-gets-0", "tss:rounding-remainder-to-community-pool",
 		"tss:member-share-is-zero", "pool:multi-denom", "mint:on", "mint:off", "begin-block-order:mint<oracle<bandtss<distribution",
 	}
@@ -262,6 +300,13 @@ func run(r *engine.Run) {
 		total := od.Total()
 		cum += total
 		deadline := started.Add(time.Duration(float64(capTotal) * float64(cum) / float64(all)))
+		// small products (and the construction of their base states) get at least a minute, within the overall cap
+		if min := time.Now().Add(time.Minute); deadline.Before(min) {
+			deadline = min
+		}
+		if overall := started.Add(capTotal); deadline.After(overall) {
+			deadline = overall
+		}
 		var done int64
 		complete := engine.ParallelFor(total, nw, deadline, func(wi int, idx int64) {
 			if tally.Violations() >= 8 {
@@ -291,6 +336,7 @@ func run(r *engine.Run) {
 				tally.Violate(t, []string{sp.Name, fmt.Sprint(idx)}, x.Fingerprint, x.Detail)
 			}
 		})
+		complete = complete || atomic.LoadInt64(&done) == total // the cap may expire while the last chunk is running
 		r.Configs = append(r.Configs, map[string]any{"space": sp, "tuples": total, "executed_or_deduplicated": atomic.LoadInt64(&done), "complete": complete})
 		fmt.Printf("[C14] space %-18s tuples=%d done=%d complete=%v evals=%d violations=%d\n", sp.Name, total, done, complete, atomic.LoadInt64(&tally.Evals), tally.Violations())
 		if !complete {
